@@ -100,6 +100,18 @@ def _src_geometry(case) -> Tuple[Tuple[int, int], Any]:
     res = float(case["res"])
     rx = case["sx"] * res
     ry = case["sy"] * res * float(case["aspect"])
+    if "band" in case:
+        # tol_band sub-check: north-up grid placed so that the footprint padded by the documented 0.9 px buffer ends
+        # d0 output pixels outside an output grid line on the low side (and ~d0 on the high side)
+        b = case["band"]
+        R = b["ratio"] * res
+        d0 = float(b["d0"])
+        out = []
+        for c0, n, sgn, off in ((cx, nx, case["sx"], b["off"][0]), (cy, ny, case["sy"], b["off"][1])):
+            k0 = round(c0 / R) - (n // b["ratio"]) // 2
+            lo_true = (k0 + off - d0) * R + 0.9 * res
+            out.append((sgn * res, lo_true if sgn > 0 else lo_true + n * res))
+        return (ny, nx), Affine(out[0][0], 0.0, out[0][1], 0.0, out[1][0], out[1][1])
     if case["aligned"]:
         cx = round(cx / abs(rx)) * abs(rx)
         cy = round(cy / abs(ry)) * abs(ry)
@@ -297,7 +309,10 @@ def s_case(draw, focus: Optional[str] = None):
                 req["res_out"] = ["xy", r * draw(st.sampled_from([1, -1])), r * draw(st.sampled_from([1, -1]))]
             else:
                 req["res_out"] = ["num", r]
-        elif req["mode"] == "shape2":
+        if req["mode"] in ("shape2", "shapeN") and draw(st.integers(0, 3)) == 0:
+            # "shape= takes precedence over resolution=": supplying both must not change anything
+            req["extra_res"] = draw(st.sampled_from(["fit", "same", ["num", float("%.6g" % (natural * 3))]]))
+        if req["mode"] == "shape2":
             req["shape_out"] = list(draw(st.sampled_from([[1, 1], [10, 20], [50, 60], [256, 256], [1000, 500], [3, 700], list(base["shape"])])))
         elif req["mode"] == "shapeN":
             req["shape_out"] = draw(st.sampled_from([1, 7, 100, 256, 1000, max(base["shape"])]))
@@ -314,7 +329,7 @@ def s_case(draw, focus: Optional[str] = None):
             rr = "sig2"  # rounding degrees to whole numbers gives a zero pixel size: not a valid request
         req["round"] = rr
     entry = draw(st.sampled_from(["cog", "cog", "to_crs", "xr"]))
-    if req["mode"] == "res" and entry == "to_crs":
+    if (req["mode"] == "res" or isinstance(req.get("extra_res"), list)) and entry == "to_crs":
         entry = "cog"  # to_crs documents only auto/fit/same
     if entry == "xr" and rot != 0 and min(base["shape"]) == 1:
         entry = "cog"  # a rotated grid with a one-pixel axis does not survive the xarray round trip (C09's business)
@@ -326,6 +341,42 @@ def s_case(draw, focus: Optional[str] = None):
     else:
         dst_spell = draw(st.sampled_from(["lower", "lower", "upper", "mixed"]))
     return {**base, **req, "entry": entry, "src_spell": src_spell, "dst_spell": dst_spell}
+
+
+@st.composite
+def s_band(draw):
+    """
+    Same CRS, explicit resolution 1000x the source's, footprint edges placed 5*tol output pixels beyond an output
+    grid line: a result that ignores them leaves the source uncovered by ~4*tol > tol, although 0.9 source pixels of
+    buffer (0.0009 output pixels) were added.  Makes the `tol` argument observable through the enclosure clause.
+    """
+    src = draw(st.sampled_from(list(CRS_POOL)))
+    valid = CRS_POOL[src][1]
+    geographic = crs_kind(src) == "geographic"
+    res = draw(st.sampled_from([1e-4, 2.5e-4] if geographic else [10.0, 30.0]))
+    ratio = 1000
+    tol = draw(st.sampled_from([1e-3, 1e-3, 0.01]))
+    d0 = 5 * tol
+    j = int(round(2 * d0 * ratio)) - 2
+    mx, my = draw(st.sampled_from([1, 2, 4])), draw(st.sampled_from([1, 2, 4]))
+    anchor = draw(st.sampled_from(["default", "edge", "center", ["f", 0.25], ["xy", 0.25, 0.75], "floating", ["enum", "EDGE"]]))
+    tight = draw(st.sampled_from([False, False, True]))
+    offs = None if tight else _anchor_offsets(anchor)
+    u = 0.5 + 0.3 * draw(st.floats(-1, 1))
+    v = 0.5 + 0.3 * draw(st.floats(-1, 1))
+    lon = round(valid[0] + u * (valid[2] - valid[0]), 6)
+    lat = round(valid[1] + v * (valid[3] - valid[1]), 6)
+    R = float("%.6g" % (ratio * res))
+    kind = draw(st.sampled_from(["num", "xy_signs"]))
+    res_out = ["num", R] if kind == "num" else ["xy", R * draw(st.sampled_from([1, -1])), R * draw(st.sampled_from([1, -1]))]
+    sp = SINU_SPELLINGS if src == "sinu" else SPELLINGS
+    return {
+        "src": src, "dst": src, "shape": [my * ratio + j, mx * ratio + j], "centre": [lon, lat],
+        "sx": draw(st.sampled_from([1, -1])), "sy": draw(st.sampled_from([-1, 1])), "rot": 0, "aspect": 1.0, "aligned": False,
+        "res": res, "band": {"ratio": ratio, "d0": d0, "off": list(offs) if offs is not None else [0.0, 0.0]},
+        "mode": "res", "res_out": res_out, "anchor": anchor, "tight": tight, "tol": tol, "round": None,
+        "entry": draw(st.sampled_from(["cog", "xr"])), "src_spell": draw(st.sampled_from(sp)), "dst_spell": draw(st.sampled_from(sp)),
+    }
 
 
 # ----------------------------------------------------------------------------- calling the code under test
@@ -374,6 +425,9 @@ def _kwargs(case):
         kw["shape"] = tuple(case["shape_out"])
     elif mode == "shapeN":
         kw["shape"] = int(case["shape_out"])
+    if case.get("extra_res") is not None:
+        er = case["extra_res"]
+        kw["resolution"] = er if isinstance(er, str) else er[1]
     if case["anchor"] != "default":
         kw["anchor"] = _mk_anchor(case["anchor"])
     if case["tight"]:
@@ -620,6 +674,8 @@ def o_main(case, T):
             T.nontrivial(key)
         T.cls(label)
         T.cls("mode:" + mode)
+        if case.get("extra_res") is not None:
+            T.cls("shape_with_resolution_given")
         T.cls("entry:" + case["entry"])
         T.cls("signs:" + sign_class)
         T.cls("rot:%d" % case["rot"])
@@ -768,7 +824,7 @@ def o_entry(case, T):
         return tuple(a.shape) == tuple(b.shape) and tuple(a.affine)[:6] == tuple(b.affine)[:6] and a.crs == b.crs
 
     g0, o0, _ = _call({**case, "entry": "cog"})
-    if case["mode"] != "res":
+    if case["mode"] != "res" and not isinstance(case.get("extra_res"), list):
         _, o1, _ = _call({**case, "entry": "to_crs"})
         require(same(o0, o1), "compute_output_geobox and GeoBox.to_crs disagree: %r %r vs %r %r",
                 tuple(o0.shape), tuple(o0.affine)[:6], tuple(o1.shape), tuple(o1.affine)[:6])
@@ -791,4 +847,5 @@ def build(chk: Check) -> None:
     chk.sub("shape_request", o_main, strategy=s_case("shape"), n={"quick": 300, "thorough": 12000}, budget_s={"quick": 30, "thorough": 400})
     chk.sub("same_crs", o_main, strategy=s_case("same_crs"), n={"quick": 300, "thorough": 15000}, budget_s={"quick": 20, "thorough": 300})
     chk.sub("utm", o_main, strategy=s_case("utm"), n={"quick": 150, "thorough": 5000}, budget_s={"quick": 40, "thorough": 800})
+    chk.sub("tol_band", o_main, strategy=s_band(), n={"quick": 200, "thorough": 5000}, budget_s={"quick": 20, "thorough": 200})
     chk.sub("entry_points", o_entry, strategy=s_case(), n={"quick": 100, "thorough": 4000}, budget_s={"quick": 30, "thorough": 600})
